@@ -24,6 +24,8 @@ def configs(tier, seed):
         "wide": (treeexp.make_cfg("wide", seed, "wide", req=True, max_containers=3), 2 if q else 3),
         "narrow-bad": (treeexp.make_cfg("narrow-bad", seed, "narrow", copies=False, moves=False, max_containers=2, bad=True), 3 if q else 4),
         "deep": (treeexp.make_cfg("deep", seed, "deep", moves=False, max_containers=2), 3 if q else 5),
+        "values": (treeexp.make_cfg("values", seed, "narrow", copies=False, moves=False, max_containers=2, values=True), 2 if q else 3),
+        "relcm": (treeexp.make_cfg("relcm", seed, "narrow", copies=False, moves=False, max_containers=2, relcm=True), 3 if q else 4),
         "narrow4": (
             treeexp.make_cfg("narrow4", seed, "narrow", copies=False, moves=False, max_containers=4, attr_keys=1),
             4 if q else 6,
